@@ -12,7 +12,7 @@ from datetime import timedelta
 from typing import TYPE_CHECKING
 
 from stabilize.handlers.base import StabilizeHandler
-from stabilize.models.status import CONTINUABLE_STATUSES, WorkflowStatus
+from stabilize.models.status import CONTINUABLE_STATUSES, WorkflowStatus, can_transition
 from stabilize.queue.messages import (
     CancelStage,
     CompleteWorkflow,
@@ -85,6 +85,16 @@ class CompleteWorkflowHandler(StabilizeHandler[CompleteWorkflow]):
             if status is None:
                 # Not ready to complete - stages still running
                 return
+
+            # A workflow paused while its last tasks were finishing arrives here PAUSED
+            # with every stage settled: the pause has nothing left to hold back, but
+            # PAUSED -> SUCCEEDED / TERMINAL is not a legal transition, so the setter
+            # below raised on every delivery, the message ended in the DLQ and after a
+            # resume nothing was left to finish the workflow. Lift the pause first
+            # (PAUSED -> RUNNING, its own commit, exactly what an operator resume does).
+            if execution.status == WorkflowStatus.PAUSED and not can_transition(WorkflowStatus.PAUSED, status):
+                self.repository.resume(execution.id)
+                execution.resume()
 
             # Update execution status
             self.set_workflow_status(execution, status)
